@@ -147,6 +147,8 @@ template <class P> struct PolyTr {
   static void value(std::ostream& o, const D& x) {
     D c(x); o << "P "; print_cons(o, c.constraints(), c.space_dimension());
   }
+  // a deep rebuild from the constraints (read from a copy): shares nothing with x
+  static D* rebuild(const D& x) { D c(x); D* p = new D(x.space_dimension(), UNIVERSE); p->add_constraints(c.constraints()); return p; }
   static bool bin(D& x, const std::string& op, const D& y, Toks& tk, std::map<int, D*>& pool, std::string& ret) {
     if (op == "poly_hull_assign") x.poly_hull_assign(y);
     else if (op == "poly_difference_assign") x.poly_difference_assign(y);
@@ -218,6 +220,7 @@ template <> struct Tr<Grid> {
     D c(x); o << "G "; print_ggens(o, c.grid_generators(), n); o << " ";
     D c2(x); print_gcgs(o, c2.congruences(), n);
   }
+  static D* rebuild(const D& x) { D c(x); D* p = new D(x.space_dimension(), UNIVERSE); p->add_congruences(c.congruences()); return p; }
   static bool bin(D& x, const std::string& op, const D& y, Toks& tk, std::map<int, D*>& pool, std::string& ret) {
     if (op == "widening_assign") x.widening_assign(y);
     else if (op == "congruence_widening_assign") x.congruence_widening_assign(y);
@@ -274,6 +277,7 @@ template <class S> struct ShapeBase {
     throw CaseErr("bad new " + how);
   }
   static void value(std::ostream& o, const D& x) { D c(x); o << "P "; print_cons(o, c.constraints(), c.space_dimension()); }
+  static D* rebuild(const D& x) { D c(x); D* p = new D(x.space_dimension(), UNIVERSE); p->refine_with_constraints(c.constraints()); return p; }
   static bool un(D& x, const std::string& op, Toks& tk) { return false; }
   static bool qry(const D& x, const std::string& q, const D& y, std::string& ret) { return false; }
   static bool obs(const D& x, const std::string& w) { CONS_OBS(x, w) else return false; return true; }
@@ -353,6 +357,13 @@ template <> struct Tr<PS> {
     D c(x); unsigned n = c.space_dimension(); o << "S " << c.size();
     for (D::const_iterator i = c.begin(); i != c.end(); ++i) { C_Polyhedron p(i->pointset()); o << " "; print_cons(o, p.constraints(), n); }
   }
+  // a deep rebuild: every disjunct is a new polyhedron built from the constraints of a copy of the original disjunct,
+  // in the same order; no Determinate representation is shared with x (or with anything else)
+  static D* rebuild(const D& x) {
+    D c(x); unsigned n = x.space_dimension(); D* p = new D(n, EMPTY);
+    for (D::const_iterator i = c.begin(); i != c.end(); ++i) { C_Polyhedron t(i->pointset()); C_Polyhedron q(n, UNIVERSE); q.add_constraints(t.constraints()); p->add_disjunct(q); }
+    return p;
+  }
   static bool bin(D& x, const std::string& op, const D& y, Toks& tk, std::map<int, D*>& pool, std::string& ret) {
     if (op == "simplify_using_context_assign") ret = x.simplify_using_context_assign(y) ? "1" : "0";
     else if (op == "least_upper_bound_assign") x.least_upper_bound_assign(y);
@@ -413,6 +424,7 @@ template <> struct Tr<Prod> {
     for (Constraint_System::const_iterator i = a.begin(); i != a.end(); ++i) { o << " "; print_con(o, *i, n); }
     for (Constraint_System::const_iterator i = b.begin(); i != b.end(); ++i) { o << " "; print_con(o, *i, n); }
   }
+  static D* rebuild(const D& x) { D c(x); D* p = new D(x.space_dimension(), UNIVERSE); p->refine_with_constraints(c.constraints()); return p; }
   static bool bin(D& x, const std::string& op, const D& y, Toks& tk, std::map<int, D*>& pool, std::string& ret) {
     if (op == "widening_assign") x.widening_assign(y);
     else if (op == "add_constraints_of") x.add_constraints(y.constraints());
@@ -450,6 +462,7 @@ template <class D> struct Runner {
   void exec(Toks& tk, const std::string& cmd) {
     if (cmd == "new") { int id = tk.nextl(); unsigned dim = tk.nextl(); std::string how = tk.next(); put(id, Tr<D>::make(how, dim, tk)); std::cout << "res ok\n"; }
     else if (cmd == "copy") { int id = tk.nextl(); const D& y = *get(tk.nextl()); std::string fl = Tr<D>::flags(y); put(id, new D(y)); std::cout << "res ok srcflags " << fl << "\n"; }
+    else if (cmd == "rebuild") { int id = tk.nextl(); const D& y = *get(tk.nextl()); put(id, Tr<D>::rebuild(y)); std::cout << "res ok\n"; }
     else if (cmd == "del") { int id = tk.nextl(); delete get(id); pool.erase(id); std::cout << "res ok\n"; }
     else if (cmd == "op") {
       int id = tk.nextl(); D& x = *get(id); std::string op = tk.next(); std::string ret;
@@ -484,7 +497,7 @@ template <class D> struct Runner {
       Toks tk(lines[k]); if (!tk.more()) continue;
       std::string cmd = tk.next();
       std::cout << "cmd " << lines[k] << std::endl;
-      if (cmd == "eq" || cmd == "eqres" || cmd == "note") continue;
+      if (cmd == "eq" || cmd == "eqres" || cmd == "eqres3" || cmd == "note") continue;
       try {
         try { exec(tk, cmd); }
         catch (const CaseErr&) { throw; }
@@ -628,7 +641,7 @@ struct SynRunner {
       Toks tk(lines[k]); if (!tk.more()) continue;
       std::string cmd = tk.next();
       std::cout << "cmd " << lines[k] << std::endl;
-      if (cmd == "eq" || cmd == "eqres" || cmd == "note") continue;
+      if (cmd == "eq" || cmd == "eqres" || cmd == "eqres3" || cmd == "note") continue;
       try {
         try { exec(tk, cmd); }
         catch (const CaseErr&) { throw; }
